@@ -145,6 +145,9 @@ def make_generated(rng, kind):
                         n_variants=rng.choice([12, 18, 25]), het_rate=0.95)
         W.add_alt_truth(rng, w1, "alt", flip_rate=0.15)
         W.add_alt_truth(rng, w1, "alt2", flip_rate=0.3)
+        # contig names as in real assemblies: same leading number, with and without prefix, zero padded
+        for c, nm in zip(w1["chroms"], rng.choice([["chr1", "chr1_KI270706v1_random"], ["1", "chr1"], ["chr01", "chr1"], ["chr2", "chr10"], ["chrB", "chrA"]])):
+            c["name"] = nm
         files = [{"kind": "vcf", "name": "a.vcf", "phased": "PS", "truth": "main"},
                  {"kind": "vcf", "name": "b.vcf", "phased": "PS", "truth": "alt", "rename": {w1["samples"][0]: rng.choice(["beta", "s2", "a"])}},
                  {"kind": "vcf", "name": "c.vcf", "phased": "PS", "truth": "alt2", "rename": {w1["samples"][0]: rng.choice(["gamma", "s3", "C"])}}]
